@@ -123,13 +123,13 @@ func cmdCheck(args []string) int {
 			res = encodeLemma(p, db, strings.TrimPrefix(key, "lemma:"))
 			encMu.Unlock()
 		} else {
-			fn := p.Func(key)
+			fn := p.Func(strings.TrimSuffix(key, "!safety"))
 			if fn == nil {
 				results[i] = &UnitResult{Key: key, Rejected: "no such function in the current tree"}
 				continue
 			}
 			encMu.Lock()
-			res = encodeUnit(p, db, fn)
+			res = encodeUnitMode(p, db, fn, strings.HasSuffix(key, "!safety"))
 			encMu.Unlock()
 		}
 		results[i] = res
@@ -194,6 +194,12 @@ func cmdCheck(args []string) int {
 				discharged++
 				byBackend[o.Res.Solver]++
 				reports = append(reports, rep)
+				continue
+			}
+			if o.Kind == "cover" {
+				reports = append(reports, rep)
+				path := writeReplayNote(replayDir, o.Name, "vacuity guard failed: under the contract's assumptions this point is unreachable (contradictory requires, invariants or library model); every obligation behind it would hold vacuously", o.Res.Output)
+				violations = append(violations, fmt.Sprintf("VIOLATION property=%s replay=%s obligation=%s vacuous no-failing-input-found", pd.ID, path, o.Name))
 				continue
 			}
 			// not discharged: known finding?
